@@ -183,15 +183,32 @@ def sig_hash(sig: str) -> str:
     return hashlib.sha1(sig.encode()).hexdigest()[:12]
 
 
+def key_hash(key: str) -> str:
+    return hashlib.sha1(key.encode()).hexdigest()[:12]
+
+
 def load_known(pid: str):
+    """known[signature] = entry. An entry may carry "witness_set": a committed file (known_sets/*.txt.gz) with the hashed
+    keys of every input known to fail with that signature; then only those inputs are covered by the entry and any other
+    input failing with the same signature is still reported as a violation."""
     if not os.path.exists(KNOWN):
         return {}, {}
+    import gzip
+
     data = json.load(open(KNOWN))
     known, fixed = {}, {}
     for e in data.get("findings", []):
         if e.get("property") != pid:
             continue
-        (known if e.get("status") == "known" else fixed)[e["signature"]] = e
+        if e.get("status") == "known":
+            e = dict(e)
+            ws = e.get("witness_set")
+            if ws:
+                with gzip.open(os.path.join(VERIF, ws), "rt") as f:
+                    e["_keys"] = set(f.read().split())
+            known[e["signature"]] = e
+        else:
+            fixed[e["signature"]] = e
     return known, fixed
 
 
@@ -252,7 +269,24 @@ def main_check(mod, tier: str, seed: int, replay: str | None = None) -> int:
 
     new_sigs, known_hit = [], []
     for sig in sorted(by_sig, key=lambda s: by_sig[s][0][0]):
-        (known_hit if sig in known else new_sigs).append(sig)
+        if sig not in known:
+            new_sigs.append(sig)
+            continue
+        keys = known[sig].get("_keys")
+        if keys is None:
+            known_hit.append(sig)
+            continue
+        fresh = [(i, f) for i, f in by_sig[sig] if key_hash(str(f.get("key", f.get("msg")))) not in keys]
+        if len(fresh) < len(by_sig[sig]):
+            known_hit.append(sig)
+        if fresh:
+            nsig = sig + "|input-not-in-known-witness-set"
+            by_sig[nsig] = fresh
+            new_sigs.append(nsig)
+    if os.environ.get("VERIF_DUMP_FINDINGS"):
+        dump = {sig: sorted({str(f.get("key", f.get("msg"))) for i, f in lst}) for sig, lst in by_sig.items()
+                if not sig.endswith("|input-not-in-known-witness-set")}
+        write_json(os.path.join(VERIF, "replays", pid + "-witness-keys.json"), dump)
 
     # ---- replay artefacts ----------------------------------------------------------------------
     rdir = os.path.join(VERIF, "replays", pid)
@@ -277,7 +311,8 @@ def main_check(mod, tier: str, seed: int, replay: str | None = None) -> int:
             for (sig, idx), a, b in zip(todo, rr1, rr2):
                 sa = {f["sig"] for f in a["findings"]}
                 sb = {f["sig"] for f in b["findings"]}
-                if sig not in sa or sig not in sb:
+                base = sig.removesuffix("|input-not-in-known-witness-set")
+                if base not in sa or base not in sb:
                     nondet.append(sig)
 
     # ---- evidence ------------------------------------------------------------------------------
@@ -334,7 +369,8 @@ def main_check(mod, tier: str, seed: int, replay: str | None = None) -> int:
               f"traces_validated_against_impl={cov['traces_validated_against_impl']}")
     for sig in known_hit:
         e = known[sig]
-        print(f"KNOWN-FINDING: property={pid} {e.get('what', sig)} [sig={sig}] witnesses={len(by_sig[sig])}", flush=True)
+        nfresh = len(by_sig.get(sig + "|input-not-in-known-witness-set", []))
+        print(f"KNOWN-FINDING: property={pid} {e.get('what', sig)} [sig={sig}] witnesses={len(by_sig[sig]) - nfresh}", flush=True)
     if nondet:
         for sig in nondet:
             print(f"NONDETERMINISM property={pid} signature did not reproduce on replay: {sig}", flush=True)
